@@ -244,7 +244,9 @@ fn build_artifact(kind: &str, aseed: u64, n: u32, root: &std::path::Path) -> Res
                 im.add_entry(&EncodingKey::from_bytes(key_of(j)), (j % 1000) as u16, 64 * j + 30, 100 + j).map_err(|e| e.to_string())?;
             }
             im.flush_all_updates().map_err(|e| e.to_string())?;
-            let npending = n % 5 + 2;
+            // a few entries (one 21-entry page) or, one instance in three, enough to reach a second, third or
+            // fourth 512-byte page of the update section (pages end in 8 bytes of padding)
+            let npending = if n % 3 == 0 { [21u32, 22, 23, 30, 43, 64][(n / 3 % 6) as usize] } else { n % 5 + 2 };
             for j in 0..npending {
                 im.add_entry(&EncodingKey::from_bytes(key_of(100 + j)), 7, 4096 * (j + 1), 55 + j).map_err(|e| e.to_string())?;
             }
@@ -305,7 +307,9 @@ fn build_artifact(kind: &str, aseed: u64, n: u32, root: &std::path::Path) -> Res
             std::fs::create_dir_all(&dir).map_err(|e| e.to_string())?;
             let path = dir.join("key_state_v8");
             let mut db = ResidencyDb::new(path.clone());
-            let nkeys = n % 9 + 2;
+            // a few keys or, one instance in three, enough for one bucket to need a second or third 25-entry page
+            // (byte 15 decides the bucket: keys with byte 15 = 16*i all fall into one bucket)
+            let nkeys = if n % 3 == 1 { [25u32, 26, 27, 40, 51, 60][(n / 3 % 6) as usize] } else { n % 9 + 2 };
             let mut keys = Vec::new();
             for j in 0..nkeys {
                 let mut k = key16(&mut rng);
@@ -559,7 +563,7 @@ impl Scenario for Corrupt {
         "one corruption of one artifact instance loaded by the real reader (or one cache operation in a put/corrupt/get sequence)"
     }
     fn rule(&self) -> &'static str {
-        "Per run one artifact instance is produced by the real writer (EncodingBuilder, ArchiveIndexBuilder, lru_file::serialize, UpdateEntry::new, ResidencyEntry::new, LocalHeader::new, the Ribbit server's handle_v1_command with its SHA-256 Checksum epilogue) from seeded content, and then corrupted inside the region its checksum is defined over: EVERY single-bit flip (all positions when the region is <= 4 KiB, else a seeded 4 KiB window plus the first/last 64 bytes of each range), 0x00/0xFF/random byte substitutions, truncation at every length, extensions for whole-file checksums. The real reader must refuse (Err / validator says invalid); Ok with different content is the violation; Ok with equal content is counted. Cache runs: seeded sequences of put_validated/put_with_validation, corrupt/delete the disk layer's file, get_validated/get_with_validation on ContentAddressedCache<DiskCache> and MultiLayerCacheImpl+Md5ValidationHooks: every Some(bytes) must hash to the requested key, and after a detected corruption the next read must not serve the entry. evaluations = corruptions + cache ops; distinct = hash of (kind, artifact bytes, verdict vector)."
+        "Per run one artifact instance is produced by the real writer (EncodingBuilder, ArchiveIndexBuilder, lru_file::serialize, UpdateEntry::new, ResidencyEntry::new, LocalHeader::new, whole .idx bucket files from IndexManager::save_all with 2-6 or (one in three) 21-64 pending update entries = 1-4 pages, whole residency files from ResidencyDb::save with 2-10 or 25-60 keys in a bucket, the Ribbit server's handle_v1_command with its SHA-256 Checksum epilogue) from seeded content, and then corrupted inside the region its checksum is defined over: EVERY single-bit flip (all positions when the region is <= 4 KiB, else a seeded 4 KiB window plus the first/last 64 bytes of each range), 0x00/0xFF/random byte substitutions, truncation at every length, extensions for whole-file checksums. The real reader must refuse (Err / validator says invalid); Ok with different content is the violation; Ok with equal content is counted. Cache runs: seeded sequences of put_validated/put_with_validation, corrupt/delete the disk layer's file, get_validated/get_with_validation on ContentAddressedCache<DiskCache> and MultiLayerCacheImpl+Md5ValidationHooks: every Some(bytes) must hash to the requested key, and after a detected corruption the next read must not serve the entry. evaluations = corruptions + cache ops; distinct = hash of (kind, artifact bytes, verdict vector)."
     }
     fn assumptions(&self) -> Vec<&'static str> {
         vec![
